@@ -18,21 +18,9 @@ Proof.
       apply (IH _ Hk p r c). exact He.
 Qed.
 
-(* the machines on which ner_net alone is the whole router: no dead chip; on a torus (wrap_around = True)
-   no dead link; on a mesh (wrap_around = False) the only dead links are wrap-around links, i.e. links
-   that leave the w x h rectangle *)
-Definition only_wrap_links_dead (m : rmachine) : Prop :=
-  forall p l, In (p, l) (rm_dead_links m) ->
-              exists dx dy, dir_vec l = Some (dx, dy) /\
-                            ~ in_range (rm_w m) (rm_h m) (fst p + dx, snd p + dy).
-
-Definition fault_free (m : rmachine) (wrap : bool) : Prop :=
-  rm_dead_chips m = [] /\
-  (if wrap then rm_dead_links m = [] else only_wrap_links_dead m).
-
 Theorem ner_net_tree : forall m wrap src dests radius s,
     1 <= rm_w m -> 1 <= rm_h m -> fault_free m wrap ->
-    in_range (rm_w m) (rm_h m) src -> Forall (in_range (rm_w m) (rm_h m)) dests -> sok s ->
+    in_range (rm_w m) (rm_h m) src -> Forall (in_range (rm_w m) (rm_h m)) dests -> stream_ok s ->
     exists t route,
       ner_net src dests (rm_w m) (rm_h m) wrap radius s = Ok (t, route)
       /\ root_chip t = Some src
@@ -41,7 +29,7 @@ Theorem ner_net_tree : forall m wrap src dests radius s,
       /\ (forall d, In d dests -> In d (chips t))
       /\ (forall x, In x (chips t) <-> In x route).
 Proof.
-  intros m wrap src dests radius s Hw Hh [Hdc Hdl] Hsrc Hd Hs.
+  intros m wrap src dests radius s Hw Hh [Hdc Hdl] Hsrc Hd Hs. apply sok_stream_ok in Hs.
   set (w := rm_w m) in *. set (h := rm_h m) in *.
   destruct wrap.
   - destruct (ner_net_tree_gen (adjacent (perfect w h)) src dests w h true radius s sok
@@ -89,12 +77,12 @@ Proof.
 Qed.
 
 Lemma ex_ner_net :
-  fault_free (perfect 3 2) true /\ sok [0; 5; 7] /\
+  fault_free (perfect 3 2) true /\ stream_ok [0; 5; 7] /\
   ner_net (0, 0) [(2, 1); (0, 0); (2, 1)] 3 2 true 20 [0; 5; 7]
   = Ok (RNode (0, 0) [(Some 4, RNode (2, 1) [])], [(0, 0); (2, 1)]).
 Proof.
   split; [split; reflexivity|]. split.
-  - repeat constructor; unfold Model.Geometry.two53; lia.
+  - repeat constructor; lia.
   - vm_compute. reflexivity.
 Qed.
 
